@@ -445,6 +445,28 @@ def r3(ctx: Ctx) -> None:
     for r_ in rels:
         for s_ in [d for d, l in lg.succ[r_.id] if l in NORMAL]:
             unguarded = unguarded or find_path(lg, s_, ends, avoid=[b.id for b in brs], labels=NORMAL)
+    if unguarded is not None:
+        # the relative path may be assembled in steps (relpath of the directory once, the file name joined on): what counts is
+        # that every path HANDED OUT (appended / yielded) passed the escape test in its own iteration
+        outs = [n for n in lg.calls() if isinstance(n.ast, ast.Call) and isinstance(n.ast.func, ast.Attribute) and n.ast.func.attr in ("append", "add")
+                and any(fr.kind == "loop" for fr in n.frames) and n.id in lg.reachable()]
+        outs += [n for n in lg.nodes if n.kind == "stmt" and n.ast is not None and any(isinstance(y, ast.Yield) for y in ast.walk(n.ast))
+                 and any(fr.kind == "loop" for fr in n.frames)]
+        tested = set()
+        for b in brs:
+            tested |= set(names_in(b.ast)) | set(lsl.origins(b.ast, b.id)["names"])
+        all_ok = bool(outs)
+        for o in outs:
+            inner = [fr.node for fr in o.frames if fr.kind == "loop"][-1]
+            lp = next(n for n in lg.nodes if n.kind == "loop" and n.ast is inner)
+            body = edge_target(lg, lp, "true")
+            w = find_path(lg, body, [o.id], avoid=[b.id for b in brs], labels=NORMAL) if body is not None and body not in [b.id for b in brs] else None
+            arg = o.ast.args[0] if isinstance(o.ast, ast.Call) and o.ast.args else o.ast
+            related = bool((set(names_in(arg)) | set(lsl.origins(arg, o.id)["names"])) & tested)
+            if w is not None or not related:
+                all_ok = False
+        if all_ok:
+            unguarded = None
     ok = ok and bool(rels) and unguarded is None
     ctx.ob("C17.R3", lf, "a listed path outside the root raises before it is handed out", brs[0] if brs else None, ok,
            "defence in depth: callers (GC) must not act on an untrustworthy listing (#45)")
